@@ -30,6 +30,13 @@ def _child(check, job, tier, wfd):
     tape = Tape(values=job["tape"]) if "tape" in job else Tape(seed=int(job["seed"]))
     opts = job.get("opts") or {}
     try:
+        import random
+
+        import numpy as np
+
+        # every run starts from the same, known state of the global RNGs
+        np.random.seed(0)
+        random.seed(0)
         res = check.run_one(tape, tier, opts)
     except BaseException as exc:  # harness failure, not a verdict
         res = {
@@ -84,6 +91,8 @@ def run_job(check, job, tier):
         try:
             os.close(r)
             os.setpgid(0, 0)
+            from .simpool import _set_pdeathsig
+            _set_pdeathsig()
             _child(check, job, tier, w)
         except BaseException:
             traceback.print_exc()
